@@ -24,6 +24,7 @@ EXPLANATION = (
     "NOT decided: the bounded-length transition system as a whole (which sequences of calls are accepted is a runtime question); only the guards that implement it are checked. MODE (added): a rejection that depends only on the XY/Ising mode is evaluated before the `if self.is_parametrized(): return` short-cut."
     ' Round 4 (added): the scan of stored enable/disable_eom_mode calls in is_in_eom_mode answers only at a record whose channel argument equals the inspected channel (loop or generator form).'
     ' Round 5 (added): the once-only and availability rules of config_slm_mask hold on the parametrized path; a stored SLM mask declares a DMM only outside XY mode.'
+    ' Round 6 (added after the fifth independent round of breaking changes): Sequence.measure writes the measurement as its last step: no raise or warnings.warn follows the write (a warning is an exception under -W error, and the call would not be stored).'
 )
 ASSUMPTIONS = [
     "a guard is recognised as an `if <call>: raise` (or mirrored else) statement or a call establishing it on all its paths",
